@@ -185,14 +185,16 @@ def scenario_cases(ctx):
                      Sparse="TRUE", Base='{"w1"}', Pos="{1,3}", RStopSet="{-1,2}", RWSet="{0,1}",
                      REndSet='{"ret","panic"}', GenKSet="{-1,2}", CtxSet='{"bg","during"}'))
     else:
+        # every scenario with <= 2 items over the full alphabet; every function to a reduced alphabet for 3 items;
+        # sparse scenarios (a base behaviour, <= 2 special items) for 4, 16 and 100 items
         F = fams(fam(Apis=ALL_APIS, NSet="0..2", WSet="1..2"),
-                 fam(Apis=ALL_APIS, NSet="{3}", WSet="{1,2,3}", MBSet='{"w0","w2","cancelE","panic","latepanic"}',
-                     RStopSet="{-1,2}", RWSet="0..2", REndSet='{"ret","panic","cancel"}', GenKSet="{-1,2}", CtxSet=ALL_CTX),
-                 fam(Apis=ALL_APIS, NSet="{4}", WSet="{1,3}", MBSet='{"w1","w2","cancelE","cancelNil","panic","latepanic"}',
-                     Sparse="TRUE", Base='{"w1","w0"}', Pos="{1,2,4}", RStopSet="{-1,3}", RWSet="{0,1}",
-                     REndSet=ALL_REND, GenKSet="{-1,3}", CtxSet=ALL_CTX),
+                 fam(Apis=ALL_APIS, NSet="{3}", WSet="{2,3}", MBSet='{"w2","cancelE","panic","latepanic"}',
+                     RStopSet="{-1,2}", RWSet="{0,1}", REndSet='{"ret","panic"}', GenKSet="{-1,2}", CtxSet=ALL_CTX),
+                 fam(Apis=ALL_APIS, NSet="{4}", WSet="{1,3}", MBSet='{"w2","cancelE","cancelNil","panic","latepanic"}',
+                     Sparse="TRUE", Base='{"w1"}', Pos="{1,4}", RStopSet="{-1,3}", RWSet="{0,1}",
+                     REndSet='{"ret","cancel"}', GenKSet="{-1,3}", CtxSet=ALL_CTX),
                  fam(Apis=ALL_APIS, NSet="{16,100}", WSet="{1,3,16}", MBSet='{"w2","cancelE","panic","latepanic"}',
-                     Sparse="TRUE", Base='{"w1","w0"}', Pos="{1,9,16,100}", RStopSet="{-1,5}", RWSet="{0,1}",
+                     Sparse="TRUE", Base='{"w1"}', Pos="{1,9,16}", RStopSet="{-1,5}", RWSet="{0,1}",
                      REndSet='{"ret","panic"}', GenKSet="{-1,9}", CtxSet=ALL_CTX))
     return gen(ctx, "gen", F)
 
@@ -211,12 +213,31 @@ def run(ctx):
     ctx.samples += core.sample_of(cases, 3)
     ctx.notes["scenarios"] = n
     binp = ctx.go_build(PKG, OVERLAY, race=True, name="c07drv")
-    reps = 2 if ctx.quick else 12
+    reps = 2 if ctx.quick else 8
     bad_all = []
     for gmp in (16, 2, 1):
         cnt, bad = run_driver(ctx, binp, path, "g%d" % gmp, reps, gmp)
         bad_all += bad
     ctx.exhaustive = True
+    # recording pass (code -> spec): a sample of the scenarios is executed once more with the user functions logging
+    # their events; TLC validates every recorded history against the contract-level acceptor spec/MRTrace.tla
+    step = 7 if ctx.quick else 5
+    sample = [c for i, c in enumerate(cases) if i % step == 0 and '"n":100' not in c]
+    spath, _ = ctx.write_cases("cases-trace.ndjson", sample)
+    tpath = os.path.join(ctx.build, "trace.ndjson")
+    _, tbad = ctx.replay(PKG, OVERLAY, RUN, spath, label="rec", shards=1, binp=binp, gomaxprocs=4, timeout=900,
+                         env=dict(VERIF_REPS=1, VERIF_FAILCAP=1, VERIF_TRACE=tpath, GORACE="exitcode=0"))
+    bad_all += tbad
+    if os.path.exists(tpath) and os.path.getsize(tpath) > 0:
+        def describe(segment, first_bad):
+            try:
+                return " in " + json.loads(segment[0]).get("scenario", "")
+            except Exception:
+                return ""
+        acc, rej = ctx.validate_traces("MRTrace", tpath, key_prefix="C07", invariants=["Inv_Running", "Inv_Subset"],
+                                       name="trace", timeout=900, describe=describe, heap="6g")
+        ctx.notes["histories_accepted"] = acc
+        ctx.notes["histories_rejected"] = rej
     # vacuity guards on the driver's own counters
     c = ctx.counters
     tot = lambda k: sum(v for kk, v in c.items() if kk.endswith("." + k))
